@@ -8,6 +8,7 @@
 -/
 import UxVerif.Lemmas.SortUniq
 import UxVerif.Lemmas.Rows
+import UxVerif.Lemmas.Handshake
 
 namespace UxVerif.C02
 open UxVerif UxVerif.Edges
@@ -152,6 +153,52 @@ theorem nPerFace_ok {n w : Nat} {t : Table} (h : StdForm n w t) :
 theorem build_meets_spec {n w : Nat} {t : Table} (h : StdForm n w t) : Spec t w (build t) :=
   ⟨edges_sound h, edges_complete h, edges_once h, faceEdges_ok h, nPerFace_ok h⟩
 
+/-- all (face, corner-slot) boundary segments of the mesh, with multiplicity -/
+def allSegs (t : Table) : List (Int × Int) := t.flatMap rowSegs
+
+/-- **handshake**: summing over the derived edges the number of (face, slot) incidences of the
+    edge gives the total number of corners `Σ_f n_nodes_per_face[f]` — every face slot is
+    accounted for by exactly one listed edge. -/
+theorem handshake {n w : Nat} {t : Table} (h : StdForm n w t) :
+    ((edges t).map (fun e => (allSegs t).count e)).sum = (nNodesPerFace t).sum := by
+  have hnd : (edges t).Nodup := by
+    have := edges_once h
+    unfold EdgesOnce at this
+    rwa [edges_map_sortPair h] at this
+  have hcov : ∀ s ∈ allSegs t, s ∈ edges t := by
+    intro s hs
+    obtain ⟨r, hr, hsr⟩ := List.mem_flatMap.mp hs
+    exact seg_is_edge h r hr s hsr
+  rw [sum_count_cover (edges t) (allSegs t) hnd hcov]
+  have hN := nPerFace_ok h
+  unfold NPerFaceOK at hN
+  rw [hN]
+  unfold allSegs
+  induction t with
+  | nil => simp
+  | cons r t ih =>
+    have h' : StdForm n w t := fun r' hr' => h r' (List.mem_cons_of_mem _ hr')
+    simp only [List.flatMap_cons, List.length_append, List.map_cons, List.sum_cons, length_rowSegs]
+    have hnd' : (edges t).Nodup := by
+      have := edges_once h'
+      unfold EdgesOnce at this
+      rwa [edges_map_sortPair h'] at this
+    have := ih h' hnd' (fun s hs => by
+      obtain ⟨r', hr', hsr⟩ := List.mem_flatMap.mp hs
+      exact seg_is_edge h' r' hr' s hsr) (nPerFace_ok h')
+    omega
+
+/-- on a mesh where every edge bounds exactly two face slots (a closed surface):
+    `2 · n_edge = Σ_f n_nodes_per_face[f]`. -/
+theorem handshake_closed {n w : Nat} {t : Table} (h : StdForm n w t)
+    (h2 : ∀ e ∈ edges t, (allSegs t).count e = 2) :
+    2 * (edges t).length = (nNodesPerFace t).sum := by
+  rw [← handshake h]
+  have : (edges t).map (fun e => (allSegs t).count e) = (edges t).map (fun _ => 2) :=
+    List.map_congr_left h2
+  rw [this]
+  simp [Nat.mul_comm]
+
 /-! ### the padded form of any mesh is standard, so the hypothesis is satisfiable for every
     mesh whose faces have between 1 and `w` corners with indices below `n` -/
 
@@ -204,6 +251,9 @@ theorem build_meets_spec_mesh {n w : Nat} (m : Mesh)
 
 /-- one triangle -/
 example : StdForm 3 3 [[0, 1, 2]] := by decide
+/-- the tetrahedron meets the hypothesis of `handshake_closed` (every edge in two face slots) -/
+example : ∀ e ∈ edges [[0, 1, 2], [0, 3, 1], [1, 3, 2], [2, 3, 0]],
+    (allSegs [[0, 1, 2], [0, 3, 1], [1, 3, 2], [2, 3, 0]]).count e = 2 := by decide
 /-- two quads sharing two edges, and a pentagon among quads with padding -/
 example : StdForm 6 5 [[0, 1, 2, 3, FILL], [0, 3, 2, 4, FILL], [0, 1, 2, 4, 5]] := by decide
 example : Spec [[0, 1, 2, FILL], [2, 1, 3, 4]] 4 (build [[0, 1, 2, FILL], [2, 1, 3, 4]]) :=
